@@ -5,6 +5,7 @@ import RisorModel.C01.VM
 import RisorModel.C01.PrattOracle
 import RisorModel.C01.FragOracle
 import RisorModel.C01.FunOracle
+import RisorModel.C01.CloOracle
 /-! Line-protocol front end of the C01 model.
   `eval <sexp>` → `ok <value> <stdout-hex>` | `err <class> <stdout-hex>` | `oof` | `unsupported <what>` -/
 namespace Risor.C01
@@ -87,6 +88,7 @@ def handle : List String → String
   | "pratt" :: rest => handlePratt rest
   | "frag" :: rest => handleFrag rest
   | "fun" :: rest => handleFun rest
+  | "clo" :: rest => handleClo rest
   | _ => "error\tunknown-request"
 
 end Risor.C01
